@@ -15,6 +15,8 @@ def setup(E):
     E._c05 = srec.standin("labelled-solvers:all-any-vs-optimal-set", ("ordered", "unordered"), ("optimal", "all-any"),
                           "bounded: same inputs; complete optimal set from the oracle (unordered: canonical labellings)")
 
+    E._c02_wit = srec.witness_standin("ordered-solvers:F-COHERENCE-witness", ["F-COHERENCE witness 3"])
+    E._c03_wit = srec.witness_standin("unordered-solvers:F-COHERENCE-witness", ["F-COHERENCE witness 4"])
     from standin import steps
 
     E._st_thl = steps.standin("thl-step-functions:recurrence-contract-at-runtime", "thl",
